@@ -79,6 +79,18 @@ def run(ctx):
         else:
             widths.add("?")
     ctx.check(r2, widths == {1, 2, 4}, key(init, "widths"), init.where(init.root), "logmath_init selects widths %s" % sorted(map(str, widths)))
+    # the width chosen must be able to hold the largest entry (maxyx): width W needs maxyx <= 2^(8W) - 1
+    for s in wstores:
+        wv = init.constval(s["rhs"])
+        if wv in (1, 2):
+            lim = 1 << (8 * wv)
+            def fits(fn, cc, pol, lim=lim):
+                r = paths.rel(fn, cc, pol, subst=False)
+                if r is None or r[0] != "maxyx" or not re.match(r"^\d+$", r[2]):
+                    return False
+                c = int(r[2])
+                return (r[1] == "<" and c <= lim) or (r[1] == "<=" and c <= lim - 1)
+            ctx.check(r2, paths.guarded(init, s["node"], fits), key(init, "width%d-fits" % wv), init.where(s["node"]), "width %d is selected without a dominating test that the largest table entry is below %d: the entry for equal arguments would be truncated" % (wv, lim))
     nsw = 0
     for f in (init, add):
         for sw in f.find("Switch"):
